@@ -7,8 +7,11 @@ part, and evaluates the Spec oracle on the *observed* result. Line kinds (tokens
   hist  <gen> <count> <sumq> <bounds> <counts>                                        => <count> <sumq> <b:c,…>
   expo  <gen> <count> <sumq> <scale> <zc> <posOff> <pos> <negOff> <neg>               => none | <count> <sumq> <schema> <zc> <pos> <neg>
   val   <gen> | <name> <desc> <c|g|h> | …                                             => <drop>:<help> …
-  e2e   <gen> <6 flags>[<early>] <ns raw|-> <res kvs> | S <name> <ver> | I <dtype> <name> <unit> <desc> | P <kvs> <payload…> …
+  e2e   <gen> <6 flags>[<early>] <ns raw|-> <res kvs> | S <name> <ver> [<schema url> <scope kvs>] | I <dtype> <name> <unit> <desc> | P <kvs> <payload…> …
                                                                                       => panic | <ok|err> | F <name> <t> <help> | M <kvs> <payload…> …
+  seq   <gen> <6 flags> <ns raw|-> <res kvs> || N || D | S … | I … | P … || D | …       => <scrape 1> || <scrape 2> || …
+        successive scrapes of ONE exporter (caches kept): N = scrape before registration, D = scrape with these scopes
+  opts  <gen> <legacy 0|1> <o,o,…|->  (T U C S N:<hex> R1 R2 R3 X)                      => <T><U><C><S> <ns hex> <-|accepted probe keys bits>
   race  <gen> <n> => ok|race|panic|hang|fail:…   (observation only; gen `coldres` = concurrent first scrapes, the F35 witness round)
 -/
 import Otel.C18.Spec
@@ -47,6 +50,13 @@ def renderKVs (l : List KV) : String := renderList (fun kv => hexOf kv.1 ++ "=" 
 def renderBuckets (l : List (Int × Nat)) : String := renderList (fun kc => s!"{kc.1}:{kc.2}") l
 
 def parseBool (c : Char) : Option Bool := if c == '0' then some false else if c == '1' then some true else none
+
+/-- 6th flag: 0 = no WithResourceAsConstantLabels; 1 = filter accepting every key; 2 = attribute.NewDenyKeysFilter("r.a",
+"service.name"); 3 = a filter rejecting every key -/
+def resDenyAll : List Bytes := [b "r.a", b "r_a", b "service.name", b "r-b", b "r.c", b "a", b "otel_scope_name", b "__r"]
+def parseResFlag (c : Char) : Option (Bool × List Bytes) :=
+  if c == '0' then some (false, []) else if c == '1' then some (true, [])
+  else if c == '2' then some (true, [b "r.a", b "service.name"]) else if c == '3' then some (true, resDenyAll) else none
 
 def parseMType : String → Option MType
   | "c" => some .counter | "g" => some .gauge | "h" => some .histogram | _ => none
@@ -126,7 +136,10 @@ def parseScopes : List (List String) → List Scope → Option (List Scope)
   | g :: gs, acc =>
     match g with
     | ["S", n, v] => do
-      let s : Scope := ⟨← parseHex n, ← parseHex v, []⟩
+      let s : Scope := { name := ← parseHex n, version := ← parseHex v, insts := [] }
+      parseScopes gs (s :: acc)
+    | ["S", n, v, u, a] => do
+      let s : Scope := { name := ← parseHex n, version := ← parseHex v, insts := [], schemaURL := ← parseHex u, attrs := ← parseKVs a }
       parseScopes gs (s :: acc)
     | ["I", dt, n, u, d] =>
       match acc with
@@ -296,7 +309,8 @@ def stepE2E (flags nsTok resTok : String) (groups : List (List String)) (obs : L
   let legacy ← parseBool l
   let cfg : Cfg := ⟨legacy, ← parseBool u, ← parseBool c, ← nsOf legacy nsTok⟩
   let scopes ← parseScopes groups []
-  let sc : Scenario := ⟨cfg, ← parseBool s, ← parseBool t, ← parseBool r, ← parseKVs resTok, scopes⟩
+  let (rc, deny) ← parseResFlag r
+  let sc : Scenario := ⟨cfg, ← parseBool s, ← parseBool t, rc, ← parseKVs resTok, scopes, deny⟩
   let ms := if collectPanics esc sc then "panic" else
     let (err, fams) := gather (collect esc sc)
     renderFams err fams
@@ -324,9 +338,133 @@ def stepE2E (flags nsTok resTok : String) (groups : List (List String)) (obs : L
     | _ => false)
   let br := dts ++ tag exAcc "exemplar-accepted" ++ tag exRej "exemplar-rejected" ++ tag exInf "exemplar-inf" ++
     tag legacy "legacy" ++ tag conflict "same-family" ++ tag merged "merged" ++ tag sc.noScope "noscope" ++
-    tag sc.noTarget "notarget" ++ tag sc.resConst "resconst" ++ tag (cfg.ns != []) "ns" ++ tag (scopes.length > 1) "scopes2"
+    tag sc.noTarget "notarget" ++ tag sc.resConst "resconst" ++ tag (sc.resConst && constRes sc != sc.res) "res-filtered" ++ tag (cfg.ns != []) "ns" ++ tag (scopes.length > 1) "scopes2" ++
+    tag (scopes.any (fun s => !s.attrs.isEmpty)) "scope-attrs" ++
+    tag (scopes.any fun s => scopes.any fun s' => s.key != s'.key && s.name == s'.name && s.version == s'.version) "scope-same-name-version" ++
+    tag (!sc.noScope && scopes.any fun s => (scopeInfoMetric esc legacy s).isNone) "scope-invalid"
   pure { agree := earlyAgree && ms == " ".intercalate obs, spec := spec, nontrivial := !insts.isEmpty,
          branches := tags (br ++ tag early "early-scrape"), model := (if early then earlyModel ++ " || " else "") ++ ms }
+
+def resDeny2 : List Bytes := [b "r.a", b "service.name"]
+def probeKeys : List Bytes := [b "r.a", b "service.name", b "r-b", b "zz"]
+
+def parseOpt (t : String) : Option Opt :=
+  if t == "T" then some .withoutTargetInfo else if t == "U" then some .withoutUnits
+  else if t == "C" then some .withoutCounterSuffixes else if t == "S" then some .withoutScopeInfo
+  else if t == "R1" then some (.withResourceAsConstantLabels []) else if t == "R2" then some (.withResourceAsConstantLabels resDeny2)
+  else if t == "R3" then some (.withResourceAsConstantLabels (resDenyAll ++ probeKeys)) else if t == "X" then some .other
+  else if t.startsWith "N:" then (parseHex (t.drop 2).toString).map .withNamespace else none
+
+def b01 (x : Bool) : String := if x then "1" else "0"
+
+def renderConfig (c : Config) : String :=
+  s!"{b01 c.disableTargetInfo}{b01 c.withoutUnits}{b01 c.withoutCounterSuffixes}{b01 c.disableScopeInfo} {hexOf c.ns} " ++
+    (match c.resFilter with
+     | none => "-"
+     | some deny => String.join (probeKeys.map fun k => b01 (!deny.contains k)))
+
+/-- option sequences (any order, repetitions): New's collector fields against `newConfig`; oracle: a flag is set iff its
+option occurs, the namespace is that of the last WithNamespace, the filter that of the last WithResourceAsConstantLabels -/
+def stepOpts (legTok optsTok : String) (obs : List String) : Option Verdict := do
+  let [l] := legTok.toList | none
+  let legacy ← parseBool l
+  let opts ← parseList parseOpt optsTok
+  let m := renderConfig (newConfig esc legacy opts)
+  let lastNs := (opts.filterMap fun o => match o with | .withNamespace ns => some ns | _ => none).getLast?
+  let lastF := (opts.filterMap fun o => match o with | .withResourceAsConstantLabels d => some d | _ => none).getLast?
+  let refNs : Bytes := match lastNs with
+    | some ns => withNamespace esc legacy ns
+    | none => []
+  let ref : Config := Config.mk (opts.contains Opt.withoutTargetInfo) (opts.contains Opt.withoutUnits)
+    (opts.contains Opt.withoutCounterSuffixes) (opts.contains Opt.withoutScopeInfo) refNs lastF
+  let dup := opts.eraseDups.length < opts.length
+  pure { agree := m == " ".intercalate obs, spec := if renderConfig ref == " ".intercalate obs then "ok" else "FAIL",
+         nontrivial := !opts.isEmpty,
+         branches := tags (tag dup "opt-repeated" ++ tag ((opts.filter fun o => match o with | .withNamespace _ => true | _ => false).length > 1) "ns-twice" ++
+           tag lastF.isSome "res-filter" ++ tag legacy "legacy" ++ tag opts.isEmpty "defaults"),
+         model := m }
+
+/-- split on the `||` token -/
+def splitSteps (toks : List String) : List (List String) :=
+  let rec go : List String → List String → List (List String) → List (List String)
+    | [], cur, acc => (cur.reverse :: acc).reverse
+    | t :: ts, cur, acc => if t == "||" then go ts [] (cur.reverse :: acc) else go ts (t :: cur) acc
+  go toks [] []
+
+def parseStep (toks : List String) : Option Step :=
+  match splitGroups toks with
+  | ["N"] :: [] => some .notRegistered
+  | ["D"] :: groups => (parseScopes groups []).map .data
+  | _ => none
+
+def parseObs (obs : List String) : Option Spec.Obs :=
+  match obs with
+  | ["panic"] => some ⟨true, false, []⟩
+  | _ =>
+    match splitGroups obs with
+    | [e] :: fg => do
+      let fams ← parseFams fg []
+      if e == "ok" then some ⟨false, false, fams⟩ else if e == "err" then some ⟨false, true, fams⟩ else none
+    | _ => none
+
+def combineSpec (l : List String) : String :=
+  if l.contains "FAIL" then "FAIL"
+  else match l.find? (fun s => s.startsWith "KNOWN:") with
+    | some k => k
+    | none => if l.contains "ok" then "ok" else "na"
+
+/-- a sequence of scrapes of one exporter: the model keeps every cache of the collector (`runSeq`); every scrape is
+judged on its own by the e2e oracle (what a scrape exposes does not depend on what earlier scrapes saw) -/
+def stepSeq (flags nsTok resTok : String) (rest : List String) (obs : List String) : Option Verdict := do
+  let [l, u, c, s, t, r] := flags.toList | none
+  let legacy ← parseBool l
+  let cfg : Cfg := ⟨legacy, ← parseBool u, ← parseBool c, ← nsOf legacy nsTok⟩
+  let (rc, deny) ← parseResFlag r
+  let base : Scenario := ⟨cfg, ← parseBool s, ← parseBool t, rc, ← parseKVs resTok, [], deny⟩
+  let steps ← match splitSteps rest with
+    | [] :: st => st.mapM parseStep
+    | _ => none
+  let obsL := splitSteps obs
+  if obsL.length != steps.length then none
+  let scOf : Step → Option Scenario
+    | .notRegistered => none
+    | .data scopes => some { base with scopes := scopes }
+  let outs := runSeq esc base (CState.init base) steps
+  let ms := (steps.zip outs).map fun so =>
+    match scOf so.1 with
+    | some sc => if collectPanics esc sc then "panic" else (let (err, fams) := gather so.2; renderFams err fams)
+    | none => (let (err, fams) := gather so.2; renderFams err fams)
+  let specs ← (steps.zip obsL).mapM fun so => do
+    let o ← parseObs so.2
+    match scOf so.1 with
+    | some sc => pure (Spec.promOK esc sc o)
+    | none => pure (if so.2 == ["ok"] then "ok" else "FAIL")
+  -- coverage tags: what the scope caches go through
+  let keysOf : Step → List ScopeKey
+    | .notRegistered => []
+    | .data scopes => scopes.map (·.key)
+  let rec hist : List Step → List ScopeKey → Bool × Bool → Bool × Bool
+    | [], _, acc => acc
+    | x :: xs, seen, (hit, later) =>
+      let ks := keysOf x
+      let hit' := hit || ks.any (fun k => seen.contains k)
+      let later' := later || (!seen.isEmpty && ks.any (fun k => !seen.contains k))
+      hist xs (seen ++ ks.filter (fun k => !seen.contains k)) (hit', later')
+  let (hit, later) := hist steps [] (false, false)
+  let allKeys := (steps.flatMap keysOf).eraseDups
+  let sameNV := allKeys.any fun k => allKeys.any fun k' => k != k' && k.name == k'.name && k.version == k'.version
+  let schemaOnly := allKeys.any fun k => allKeys.any fun k' => k != k' && k.name == k'.name && k.version == k'.version && k.attrs == k'.attrs
+  let verOnly := allKeys.any fun k => allKeys.any fun k' => k != k' && k.name == k'.name && k.version != k'.version && k.attrs == k'.attrs
+  let override := allKeys.any fun k => k.attrs.any fun kv => kv.1 == scopeNameLabel || kv.1 == scopeVersionLabel
+  let invalid := !base.noScope && allKeys.any fun k => (scopeInfoOfKey esc legacy k).isNone
+  let dataSteps := steps.filter (fun x => match x with | .data _ => true | _ => false)
+  let br := tag hit "scope-cache-hit" ++ tag later "scope-new-later" ++ tag sameNV "scope-same-name-version" ++
+    tag schemaOnly "scope-schema-only" ++ tag verOnly "scope-version-only" ++ tag override "scope-attr-overrides-label" ++
+    tag invalid "scope-invalid" ++ tag (!allKeys.all (fun k => k.attrs.isEmpty)) "scope-attrs" ++
+    tag (steps.length != dataSteps.length) "early-scrape" ++ tag legacy "legacy" ++ tag base.noScope "noscope" ++
+    tag base.noTarget "notarget" ++ tag base.resConst "resconst" ++ tag (base.resConst && constRes base != base.res) "res-filtered"
+  pure { agree := ms == obsL.map (" ".intercalate ·), spec := combineSpec specs, nontrivial := dataSteps.length ≥ 2,
+         branches := tags br, model := " || ".intercalate ms }
 
 def step (_ : Unit) (toks : List String) : Unit × Option Verdict :=
   let (inp, obs) := splitObs toks
@@ -344,6 +482,8 @@ def step (_ : Unit) (toks : List String) : Unit × Option Verdict :=
       match splitGroups rest with
       | [] :: groups => stepE2E flags ns res groups obs
       | _ => none
+    | ["opts", _, leg, os] => stepOpts leg os obs
+    | "seq" :: _ :: flags :: ns :: res :: rest => stepSeq flags ns res rest obs
     | ["race", gen, _] =>
       -- observation only: anything but `ok` (a data race report, a panic, a hang) fails. Round `coldres` = concurrent
       -- *first* scrapes with WithResourceAsConstantLabels, the witness of F35 (fixed in /repo d3bd916).
